@@ -43,6 +43,9 @@ def bounded(pb, interp, rng, tier):
     for c in big:
         fs = tiny if tier == "thorough" else tiny[:6]
         cases.append([(c, f) for f in fs] + [(c + 1, -0.5), (c, 0.5)])      # includes the two normal forms of a tie
+    # wide dynamic range in one array: near-ties far below one ulp of the largest count, next to small values
+    for top in (2.0 ** 40, -(2.0 ** 40), 2.0 ** 51):
+        cases.append([(0.0, 0.3), (top, 0.1), (top, 0.1 + 1e-6), (-2.0, -0.8), (top, 0.1 - 1e-6), (5.0, 0.0), (top / 2, 0.25), (1.0, 0.5)])
     for row in cases:
         try:
             p = Phase(np.array([c for c, f in row]), np.array([f for c, f in row]))
